@@ -1,0 +1,24 @@
+//go:build verif
+
+package inspector
+
+// Contracts for govc (see /verif/DESIGN.md). Comment-only file: contributes no code.
+
+// ---- C01, ownership device: the body handed on to the proxy must not read from memory that has been given back
+// to a pool (another request's inspection would overwrite it, whatever the interleaving).
+//@ ghost field backing ref
+//@ ghost field released bool
+
+//@ func (bi *BodyInspector) extractModelName
+//@   trusted JSON probing of the buffered prefix (belongs to C20); assumed pure
+//@ func (bi *BodyInspector) detectRequiredCapabilities
+//@   trusted JSON probing of the buffered prefix (belongs to C20); assumed pure
+//@   ensures res == nil || fresh(res)
+
+//@ func (bi *BodyInspector) Inspect
+//@   property C01
+//@   replay inspector_body_alias : r.ContentLength
+//@   requires r != nil && profile != nil && bi != nil
+//@   requires ghost(r.Body).backing == 0
+//@   modifies r.Body, profile.ModelName, profile.ModelCapabilities, ghost backing, ghost released, ghost remaining
+//@   ensures ghost(r.Body).backing == 0 || !ghost(ghost(r.Body).backing).released
